@@ -39,6 +39,7 @@ struct State {
   int n;
   volatile int go[SCH_MAX_THREADS];
   volatile int main_go;
+  volatile int run_done;   // set by the main thread once every simulated thread has finished its operations
   int done[SCH_MAX_THREADS];
   int held[SCH_MAX_THREADS];      // herd strategy: parked before the CAS
   int stalled[SCH_MAX_THREADS];   // winner-stall: not runnable for this many more steps
@@ -204,6 +205,7 @@ void sch_reset(int nthreads, const sch_config* cfg, const uint32_t* decisions, u
     S.prio[i] = 0;
   }
   S.main_go = 0;
+  S.run_done = 0;
   S.ndone = 0;
   S.current = -1;
   S.seq = 0;
@@ -229,7 +231,13 @@ void sch_reset(int nthreads, const sch_config* cfg, const uint32_t* decisions, u
 
 void sch_set_monitor(sch_monitor_fn fn) { S.monitor = fn; }
 
-void sch_thread_begin(int tid) { wait_turn(tid); }
+static __thread int tls_self = -1;
+int sch_self(void) { return tls_self; }
+
+void sch_thread_begin(int tid) {
+  wait_turn(tid);
+  tls_self = tid;
+}
 
 void sch_yield(int tid, int site, uint32_t aux) {
   if (tid < 0 || tid >= S.n) return;
@@ -250,7 +258,7 @@ void sch_yield(int tid, int site, uint32_t aux) {
   // treatment of spin loops, a yield inside the spin loop drops the waiter below
   // every other thread (deterministically), which keeps every finite prefix
   // reachable and makes the schedule fair.
-  if (S.cfg.strategy == SCH_PCT && site == 16 /* T.spin_before */) S.prio[tid] = --S.min_prio;
+  if (S.cfg.strategy == SCH_PCT && (site == 16 /* T.spin_before */ || site == 23 /* X.blocked */)) S.prio[tid] = --S.min_prio;
   int next = pick_next(tid, site);
   if (next < 0) next = tid;  // nobody else: keep going
   if (S.ndec_out < SCH_MAX_DECISIONS) S.dec_out[S.ndec_out++] = (uint32_t)next;
@@ -260,7 +268,12 @@ void sch_yield(int tid, int site, uint32_t aux) {
   }
 }
 
+// A simulated thread could not take a lock / is waiting for another thread's one-time initialisation
+// (sim/blockwrap.cpp): same as a yield, but the waiter is demoted under PCT exactly like a spinning waiter.
+void sch_blocked(int tid, int what) { sch_yield(tid, 23 /* X.blocked */, (uint32_t)what); }
+
 void sch_thread_end(int tid) {
+  tls_self = -1;
   log_event(tid, 63, 0);
   S.done[tid] = 1;
   S.ndone++;
@@ -269,6 +282,16 @@ void sch_thread_end(int tid) {
   int next = pick_next(tid, 63);
   if (next >= 0 && S.ndec_out < SCH_MAX_DECISIONS) S.dec_out[S.ndec_out++] = (uint32_t)next;
   hand_over(tid, next);  // next == -1 wakes main
+  // The OS thread stays alive (parked, invisibly to ThreadSanitizer) until the whole run is over. A thread that
+  // exits while others still run is "finished" for the TSan runtime, which may then be unable to restore the stack
+  // of its accesses and silently drops races against them (tsan v3 RestoreStack), depending on runtime state
+  // accumulated by earlier runs - i.e. not replayable. Keeping every thread alive removes that dependence.
+  while (__atomic_load_n(&S.run_done, __ATOMIC_SEQ_CST) == 0) futex_wait(&S.run_done, 0, nullptr);
+}
+
+void sch_release_threads(void) {
+  __atomic_store_n(&S.run_done, 1, __ATOMIC_SEQ_CST);
+  syscall(SYS_futex, &S.run_done, FUTEX_WAKE_PRIVATE, 1 << 20, nullptr, nullptr, 0);
 }
 
 int sch_run(uint32_t watchdog_seconds) {
